@@ -113,10 +113,10 @@ end Bdb
 namespace Ndb
 
 /-- every slot that `Parse` keeps was read from 16 bytes inside the file -/
-theorem slots_len (file : Bytes) (limit last off : Nat) (acc ss : List Slot)
-    (h : slots file limit last off acc = some ss) (hoff : off ≤ file.length ∨ off ≥ limit) :
+theorem slots_len (file : Bytes) (limit off : Nat) (acc ss : List Slot)
+    (h : slots file limit off acc = some ss) (hoff : off ≤ file.length ∨ off ≥ limit) :
     ss.length * 16 + off ≤ acc.length * 16 + max file.length off := by
-  fun_induction slots file limit last off acc with
+  fun_induction slots file limit off acc with
   | case1 => injection h with h; subst h; simp; omega
   | case2 => cases h
   | case3 => cases h
@@ -124,11 +124,7 @@ theorem slots_len (file : Bytes) (limit last off : Nat) (acc ss : List Slot)
     have := ih h (by omega)
     omega
   | case5 => cases h
-  | case6 off acc _ hrd _ _ _ s hi =>
-    injection h with h; subst h
-    simp only [List.length_reverse, List.length_cons]
-    omega
-  | case7 off acc _ hrd _ _ _ s hi ih =>
+  | case6 off acc _ hrd _ _ _ ih =>
     have := ih h (by omega)
     simp only [List.length_cons] at this
     omega
